@@ -32,7 +32,14 @@ ProducerFails(e) ==
                 (IF NormW(ValueOf(pm, LblHashAlg)) # AlgItem(hp.alg) THEN {"hash-algorithm-not-in-protected-header"} ELSE {})
                 \cup (IF hp.pct.t # "absent" /\ ~(HasLabel(pm, LblPreimageCT) /\ NormW(ValueOf(pm, LblPreimageCT)) = ToItem(hp.pct)) THEN {"preimage-content-type-not-in-protected-header"} ELSE {})
                 \cup (IF hp.loc # <<>> /\ ~(HasLabel(pm, LblLocation) /\ NormW(ValueOf(pm, LblLocation)) = Tstr(hp.loc)) THEN {"location-not-in-protected-header"} ELSE {})
-                \cup (IF it.xs[3].b # hp.hash THEN {"payload-is-not-the-hash-value"} ELSE {}))
+                \cup (IF it.xs[3].b # hp.hash THEN {"payload-is-not-the-hash-value"} ELSE {})
+                \* nothing but the caller's base parameters and the governed ones given in this call
+                \cup (LET given == {KeyId(ToItem(e.P[i][1])) : i \in 1..Len(e.P)} \cup {KeyId(UIntA(NatToArg(LblHashAlg)))}
+                                   \cup (IF hp.pct.t # "absent" THEN {KeyId(UIntA(NatToArg(LblPreimageCT)))} ELSE {})
+                                   \cup (IF hp.loc # <<>> THEN {KeyId(UIntA(NatToArg(LblLocation)))} ELSE {})
+                           have == {KeyId(pm[i][1]) : i \in 1..Len(pm)}
+                           algk == {KeyId(UIntA(NatToArg(LblAlg)))}          \* signing may add the signer's algorithm
+                       IN IF have \ algk # given \ algk THEN {"protected-header-is-not-the-base-plus-the-given-parameters"} ELSE {}))
           \cup (IF v.res # "ok" \/ v.msgnil THEN {"own-envelope-not-accepted-by-VerifyHashEnvelope"}
                 ELSE LET rp == v.post.P IN
                   (IF ~HasGoLabel(rp, LblHashAlg) \/ ToItem(GoValueOf(rp, LblHashAlg)) # AlgItem(hp.alg) THEN {"returned-hash-algorithm-differs"} ELSE {})
